@@ -32,6 +32,9 @@ type SubEvent struct {
 	Partial bool `json:"partial,omitempty"`
 	// KeepAlive: the upstream (real websocket upstream only) sends a keep-alive message before this event
 	KeepAlive bool `json:"keep_alive,omitempty"`
+	// NoWait: the next event (of the same subscription, real websocket upstream only) is emitted without waiting
+	// for the delivery of this one - a burst; the frames are then read and checked in emission order
+	NoWait bool `json:"no_wait,omitempty"`
 }
 
 // extraKey reports a key of got that the reference answer does not have at the same place (a helper field that was not removed).
@@ -233,6 +236,64 @@ func checkC17(c *SubCase) (*ev.Failure, string) {
 	}
 	ref := &refexec.Executor{Schema: union, Store: c.World.Store}
 	delivered := 0
+	type pendingEvent struct {
+		k        int
+		e        SubEvent
+		sp       SubSpec
+		expected map[string]interface{}
+	}
+	var pending []pendingEvent
+	verify := func(p pendingEvent) (*ev.Failure, string) {
+		k, e, sp, expected := p.k, p.e, p.sp, p.expected
+		// the client must now receive exactly this event on this id (events are emitted one at a time)
+		f, ok := conns[sp.Conn].Next(20 * time.Second)
+		if !ok {
+			if f.Err == "timeout" {
+				return ev.Failf("lost", "event %d of subscription %s (%s) was not delivered within 20s", k, sp.ID, trunc(sp.Op.Query, 150)), ""
+			}
+			return ev.Failf("lost", "connection ended before event %d of subscription %s was delivered", k, sp.ID), ""
+		}
+		if f.Err != "" {
+			return ev.Failf("frame", "malformed frame from the gateway: %s (%s)", f.Err, subx.Dump(f.Payload)), ""
+		}
+		if f.Msg["type"] != "data" {
+			return ev.Failf("wrong-type", "expected a data message for event %d, got %s", k, trunc(string(f.Payload), 200)), ""
+		}
+		if f.Msg["id"] != sp.ID {
+			return ev.Failf("wrong-id", "event %d of subscription %s arrived under id %v", k, sp.ID, f.Msg["id"]), ""
+		}
+		pl, _ := f.Msg["payload"].(map[string]interface{})
+		if e.Error {
+			if l, _ := pl["errors"].([]interface{}); len(l) == 0 {
+				return ev.Failf("error-not-forwarded", "upstream errors of event %d were not forwarded: %s", k, trunc(string(f.Payload), 300)), ""
+			}
+			delivered++
+			return nil, ""
+		}
+		if e.Partial {
+			// errors forwarded; whatever data comes with them carries no helper field
+			if l, _ := pl["errors"].([]interface{}); len(l) == 0 {
+				return ev.Failf("error-not-forwarded", "upstream errors of partial event %d were not forwarded: %s", k, trunc(string(f.Payload), 300)), ""
+			}
+			if x := extraKey(map[string]interface{}(expected), refexec.Normalize(pl["data"]), "data"); x != "" {
+				return ev.Failf("payload-mismatch:extra-key", "event %d of subscription %s (%s), delivered with upstream errors, carries %s which the client did not select: %s", k, sp.ID, trunc(sp.Op.Query, 150), x, trunc(string(f.Payload), 400)), ""
+			}
+			delivered++
+			return nil, ""
+		}
+		if l, _ := pl["errors"].([]interface{}); len(l) > 0 {
+			return ev.Failf("payload-errors", "event %d of subscription %s (%s) delivered with errors: %s", k, sp.ID, trunc(sp.Op.Query, 150), trunc(string(f.Payload), 400)), ""
+		}
+		got, _ := refexec.Prune(refexec.Normalize(pl["data"])).(map[string]interface{})
+		if got == nil {
+			got = map[string]interface{}{}
+		}
+		if cls, msg := refexec.Diff(expected, got, "data"); cls != "" {
+			return ev.Failf("payload-mismatch:"+cls, "event %d of subscription %s (%s): %s\nexpected %s\nobserved %s", k, sp.ID, trunc(sp.Op.Query, 150), msg, trunc(jsonOf(expected), 600), trunc(jsonOf(got), 600)), ""
+		}
+		delivered++
+		return nil, ""
+	}
 	for k, e := range c.Events {
 		rt := subs[e.Sub]
 		sp := rt.spec
@@ -279,53 +340,16 @@ func checkC17(c *SubCase) (*ev.Failure, string) {
 				}
 			}
 		}
-		// the client must now receive exactly this event on this id (events are emitted one at a time)
-		f, ok := conns[sp.Conn].Next(20 * time.Second)
-		if !ok {
-			if f.Err == "timeout" {
-				return ev.Failf("lost", "event %d of subscription %s (%s) was not delivered within 20s", k, sp.ID, trunc(sp.Op.Query, 150)), ""
+		pending = append(pending, pendingEvent{k: k, e: e, sp: sp, expected: expected})
+		if e.NoWait && c.RealWS && k+1 < len(c.Events) && c.Events[k+1].Sub == e.Sub {
+			continue // burst: the next event follows at once
+		}
+		for _, p := range pending {
+			if f, skip := verify(p); f != nil || skip != "" {
+				return f, skip
 			}
-			return ev.Failf("lost", "connection ended before event %d of subscription %s was delivered", k, sp.ID), ""
 		}
-		if f.Err != "" {
-			return ev.Failf("frame", "malformed frame from the gateway: %s (%s)", f.Err, subx.Dump(f.Payload)), ""
-		}
-		if f.Msg["type"] != "data" {
-			return ev.Failf("wrong-type", "expected a data message for event %d, got %s", k, trunc(string(f.Payload), 200)), ""
-		}
-		if f.Msg["id"] != sp.ID {
-			return ev.Failf("wrong-id", "event %d of subscription %s arrived under id %v", k, sp.ID, f.Msg["id"]), ""
-		}
-		pl, _ := f.Msg["payload"].(map[string]interface{})
-		if e.Error {
-			if l, _ := pl["errors"].([]interface{}); len(l) == 0 {
-				return ev.Failf("error-not-forwarded", "upstream errors of event %d were not forwarded: %s", k, trunc(string(f.Payload), 300)), ""
-			}
-			delivered++
-			continue
-		}
-		if e.Partial {
-			// errors forwarded; whatever data comes with them carries no helper field
-			if l, _ := pl["errors"].([]interface{}); len(l) == 0 {
-				return ev.Failf("error-not-forwarded", "upstream errors of partial event %d were not forwarded: %s", k, trunc(string(f.Payload), 300)), ""
-			}
-			if x := extraKey(map[string]interface{}(expected), refexec.Normalize(pl["data"]), "data"); x != "" {
-				return ev.Failf("payload-mismatch:extra-key", "event %d of subscription %s (%s), delivered with upstream errors, carries %s which the client did not select: %s", k, sp.ID, trunc(sp.Op.Query, 150), x, trunc(string(f.Payload), 400)), ""
-			}
-			delivered++
-			continue
-		}
-		if l, _ := pl["errors"].([]interface{}); len(l) > 0 {
-			return ev.Failf("payload-errors", "event %d of subscription %s (%s) delivered with errors: %s", k, sp.ID, trunc(sp.Op.Query, 150), trunc(string(f.Payload), 400)), ""
-		}
-		got, _ := refexec.Prune(refexec.Normalize(pl["data"])).(map[string]interface{})
-		if got == nil {
-			got = map[string]interface{}{}
-		}
-		if cls, msg := refexec.Diff(expected, got, "data"); cls != "" {
-			return ev.Failf("payload-mismatch:"+cls, "event %d of subscription %s (%s): %s\nexpected %s\nobserved %s", k, sp.ID, trunc(sp.Op.Query, 150), msg, trunc(jsonOf(expected), 600), trunc(jsonOf(got), 600)), ""
-		}
-		delivered++
+		pending = nil
 	}
 	// nothing else is pending on any connection (no duplicates)
 	for i, cc := range conns {
@@ -408,6 +432,16 @@ func genSubCase(t *rapid.T, rec *ev.Recorder) (*SubCase, []string) {
 		}
 		c.Events = append(c.Events, e)
 	}
+	if c.RealWS && len(c.Subs) > 0 && rapid.IntRange(0, 3).Draw(t, "burst") == 0 {
+		// a burst: 5..40 events of one subscription emitted back to back
+		si := rapid.IntRange(0, len(c.Subs)-1).Draw(t, "burstsub")
+		n := rapid.IntRange(5, 40).Draw(t, "burstlen")
+		vals := world.GenerateEvents(t, m, w.Store, "Subscription", c.Subs[si].Field, n)
+		for _, v := range vals {
+			c.Events = append(c.Events, SubEvent{Sub: si, Value: v, NoWait: true})
+		}
+		labels = append(labels, "eventBurst")
+	}
 	if c.RealWS {
 		labels = append(labels, "realWebsocketUpstream")
 	}
@@ -457,6 +491,7 @@ func TestC17(t *testing.T) {
 		if f != nil {
 			if isCensus() {
 				census.add(f.Signature, trunc(f.Message, 700))
+				census.keep("C17", f.Signature, c, f.Message)
 				return
 			}
 			if only := onlySig(); only != "" && !strings.HasPrefix(f.Signature, only) {
